@@ -32,6 +32,17 @@ func genKflApi(r *Rand, tier string, emit func(sx.Sx)) {
 		{"!(timestamp < now())", false}, {"timestamp < now() and timestamp > minutes(-1)", true}} {
 		emit(sx.L(sx.A("time"), sx.S(tc.q), sx.Bool(tc.want)))
 	}
+	// datetime("...") with a well-formed instant: the record's timestamp lies a second before / after it
+	layout := "1/2/2006, 3:04:05.000 PM"
+	for _, ms := range []int64{1635190131000, 0, 946684799999, 1709164800000, 4102444800000, 86399999} {
+		lit := time.Unix(0, ms*int64(time.Millisecond)).UTC().Format(layout)
+		for _, d := range []int64{-1000, 0, 1000} {
+			rec := fmt.Sprintf(`{"timestamp":%d}`, ms+d)
+			emit(sx.L(sx.A("dt"), sx.S(fmt.Sprintf(`timestamp >= datetime("%s")`, lit)), sx.S(rec), sx.Bool(d >= 0)))
+			emit(sx.L(sx.A("dt"), sx.S(fmt.Sprintf(`timestamp < datetime("%s")`, lit)), sx.S(rec), sx.Bool(d < 0)))
+			emit(sx.L(sx.A("dt"), sx.S(fmt.Sprintf(`timestamp == datetime("%s")`, lit)), sx.S(rec), sx.Bool(d == 0)))
+		}
+	}
 	n := 0
 	genKflEval(r, tier, func(c sx.Sx) {
 		n++
@@ -56,6 +67,16 @@ func runKflApi(p sx.Sx) sx.Sx {
 		time.Sleep(15 * time.Millisecond)
 		rec := fmt.Sprintf(`{"timestamp":%d}`, time.Now().UnixNano()/int64(time.Millisecond))
 		time.Sleep(15 * time.Millisecond)
+		ta, _, ea := kfl.Apply([]byte(rec), q)
+		expr, _, ep := kfl.PrepareQuery(q)
+		var tp bool
+		if ep == nil {
+			tp, _, ep = kfl.Eval(expr, rec)
+		}
+		return sx.L(sx.A("time"), b(ta, ea), b(tp, ep))
+	}
+	if p.List[0].Atom == "dt" {
+		q, rec := p.List[1].Str(), p.List[2].Str()
 		ta, _, ea := kfl.Apply([]byte(rec), q)
 		expr, _, ep := kfl.PrepareQuery(q)
 		var tp bool
